@@ -26,6 +26,17 @@ def parseShares (s : String) : Option (List PShare) :=
 def okPayload (line : String) : Option String :=
   if line.startsWith "ok " then some (line.drop 3).toString else none
 
+/-- the share list of a `split` answer `ok <shares> [draws=<k>]` -/
+def splitShares (impl : String) : Option (List PShare) :=
+  (okPayload impl).bind fun p => parseShares ((p.splitOn " ").headD "")
+
+/-- the number of random draws a `split` answer reports -/
+def splitDraws (impl : String) : Option Nat :=
+  (okPayload impl).bind fun p =>
+    match p.splitOn " " with
+    | [_, d] => if d.startsWith "draws=" then (d.drop 6).toString.toNat? else none
+    | _ => none
+
 def F : Field := gf256
 
 /-! ### field operations -/
@@ -84,7 +95,7 @@ def column (shares : List PShare) (b : Nat) : List Nat := shares.map fun s => s.
 def splitDefect (secret : List Nat) (t n : Nat) (impl : String) : Option String :=
   if impl == "timeout" then some "split-terminates:no result within the deadline"
   else if impl.startsWith "crash" then some "split-terminates:crashed"
-  else match (okPayload impl).bind parseShares with
+  else match splitShares impl with
     | none => some s!"split-terminates:{impl.take 40}"
     | some shares =>
       let xs := shares.map (·.1)
@@ -104,10 +115,39 @@ def splitDefect (secret : List Nat) (t n : Nat) (impl : String) : Option String 
         | none => none
         | some b => some s!"split-polynomial:byte {b} is not a degree<{t} sharing of the secret byte"
 
-def judgeSplit (secret : List Nat) (t n : Nat) (impl : String) : String × Bool :=
+/-- Secrecy needs `|secret|·(t-1)` independent random coefficients: a fresh set of `t-1` draws for every secret byte.
+    Two observable consequences are checked.  (1) The implementation consumed exactly that many values from its random
+    device.  (2) When the (interposed) random stream is not constant, the byte polynomials do not all have the same
+    random part, i.e. it is not the case that every share satisfies `value[i] ^ value[0] = secret[i] ^ secret[0]` for all
+    bytes `i` (which would let a single share reveal the secret up to one byte).  `none` = satisfied. -/
+def drawsDefect (secret : List Nat) (t : Nat) (constStream : Bool) (impl : String) : Option String :=
+  let need := secret.length * (t - 1)
+  let countDefect : Option String :=
+    match splitDraws impl with
+    | some k =>
+      if k != need then
+        some s!"split-draws:{k} draws consumed, {need} independent draws needed ({secret.length} bytes x (t-1))"
+      else none
+    | none => none
+  let leakDefect : Option String :=
+    if constStream || t < 2 then none
+    else match splitShares impl with
+      | some shares =>
+        let s0 := secret.getD 0 0
+        if !shares.isEmpty && shares.all (fun sh =>
+             (List.range secret.length).all fun i => (sh.2.getD i 0 ^^^ sh.2.getD 0 0) == (secret.getD i 0 ^^^ s0))
+        then some "split-draws:every share satisfies value[i]^value[0] = secret[i]^secret[0]: all bytes share one random polynomial"
+        else none
+      | none => none
+  countDefect <|> leakDefect
+
+def judgeSplit (secret : List Nat) (t n : Nat) (constStream : Bool) (impl : String) : String × Bool :=
   if 1 ≤ t ∧ t ≤ n ∧ n ≤ 255 then
     match splitDefect secret t n impl with
-    | none => ("ok", true)
+    | none =>
+      match drawsDefect secret t constStream impl with
+      | none => ("ok", true)
+      | some d => ("viol:" ++ d, true)
     | some d => ("viol:" ++ d, false)
   else
     -- outside the property's domain: only "no crash, no hang, no shares presented as a sharing"
